@@ -2,8 +2,8 @@
    Property theorems only: each closed by [exact] of a lemma from Proofs/, followed by Print Assumptions.
    Model: Model/C14_finder.v (finder.py find_package / iter_submodules / submodules / .pth extension, loader.py submodule
    attachment, in static mode) and the authority (CPython's FileFinder/PathFinder, pkgutil, site). *)
-From Coq Require Import List ZArith String Ascii Bool Arith.
-From Verif Require Import Lib.Sexp Model.C14_finder Proofs.C14_finder.
+From Coq Require Import List ZArith String Ascii Bool Arith Sorting.Sorted.
+From Verif Require Import Lib.Sexp Model.C14_finder Proofs.C14_finder Proofs.C14_order Proofs.C14_import Proofs.C14_pth Proofs.C14_ns Proofs.C14_bypath Proofs.C14_nsload Proofs.C14_nsinv Proofs.C14_nsorder.
 Import ListNotations.
 Open Scope string_scope. Open Scope list_scope.
 
@@ -45,82 +45,128 @@ Theorem C14_loaded_characterisation :
 Proof. exact run_spec. Qed.
 Print Assumptions C14_loaded_characterisation.
 
-(* Listing-order invariance, regular packages of any depth: permuting every directory listing of the universe
-   (os.walk's files-before-directories contract is part of [walk]) leaves the static load of the package unchanged
-   (same error, or the same module at every dotted name), provided no two yielded files claim one module name other
-   than a module and its stubs ([no_clash], decidable: [no_clashb]). *)
+(* The same fold in general -- top module a regular package OR a namespace package over several portions -- over ANY
+   depth-sorted entry list, key by key ([spec]): at a dotted name k sits the merge of k's candidate files iff
+   _get_or_create_parent_module succeeds along k's parents (namespace levels only while no level above has a file, then
+   package levels whose merge is an __init__ module); else a namespace sub-package iff the top is a namespace package,
+   no level down to k has a file, and some entry passes through k -- recording the directories of those entries in their
+   order; else nothing.  (The regular-top theorem above is the instance without namespace zone.) *)
+Theorem C14_loaded_characterisation_general :
+  forall top E,
+  sorted E -> (forall e, In e E -> e_parts e <> []) ->
+  forall k, lookup_m k (runN top E) = spec E top k.
+Proof. exact runN_spec. Qed.
+Print Assumptions C14_loaded_characterisation_general.
+
+(* Listing order and namespace packages, the finder stage: under every permutation of every directory listing the
+   repaired iter_submodules over a list of distinct portions yields the same SET of entries -- which portion provides a
+   regular sub-package and which portion's module of a name wins is decided by the order of the portions and by depth
+   (the provider of a folder = the first portion, in search-path order, with an eligible __init__ module there), never
+   by the order in which a directory lists its entries. *)
+Theorem C14_namespace_finder_order_invariant :
+  forall U U' ds,
+  perm_universe U U' -> wf_universe U -> NoDup (map bd ds) ->
+  forall x, In x (iter_portions U ds) <-> In x (iter_portions U' ds).
+Proof. exact iter_portions_order_invariant. Qed.
+Print Assumptions C14_namespace_finder_order_invariant.
+
+(* Listing-order invariance of the WHOLE static load as the model runs it -- .pth extension of the search paths,
+   find_package, iter_submodules (regular package or namespace package over several portions), the loader's fold --:
+   permuting every directory listing of the universe gives the same error, or the same file at every dotted name and
+   namespace sub-packages that record the same set of directories ([same_tree_ns]; for regular packages the stronger
+   [same_tree] of the next theorem holds).  No hypothesis besides unique names per directory. *)
+Theorem C14_listing_order_invariant :
+  forall U U' sps name,
+  perm_universe U U' -> wf_universe U ->
+  same_tree_ns (load false U sps name) (load false U' sps name).
+Proof. exact load_order_invariant_full. Qed.
+Print Assumptions C14_listing_order_invariant.
+
+(* Listing-order invariance, regular packages of any depth, no side condition: permuting every directory listing of
+   the universe leaves the static load of the package unchanged (same error, or the same module at every dotted
+   name).  The former hypothesis no_clash is gone: os.walk lists the files of a directory before it descends into
+   the sub-directories ([walk_sorted]), so name.py always precedes name/__init__.py in the list handed to the loader,
+   the stable depth sort keeps that, and the merge ends on the package; name.tag.pyi no longer claims [name] (F5). *)
 Theorem C14_listing_order_invariant_regular :
   forall U U' name paths,
   perm_universe U U' -> wf_universe U ->
-  (forall p st es, g_find U name paths [] = FPkg p st -> iter_regular U p = Ok es -> no_clash es) ->
   (forall ds, g_find U name paths [] <> FNs ds) ->
   same_tree (load_found false U (g_find U name paths [])) (load_found false U' (g_find U' name paths [])).
-Proof. exact load_order_invariant_regular. Qed.
+Proof. exact load_order_invariant_regular_full. Qed.
 Print Assumptions C14_listing_order_invariant_regular.
 
-(* The no_clash hypothesis is needed (finding F5). *)
-Theorem C14_listing_order_refuted_F5 :
-  exists U U' sps name, perm_universe U U' /\ wf_universe U /\ any_listing gapL_F5 U = true /\
-                        ~ same_tree (load false U sps name) (load false U' sps name).
-Proof. exact listing_order_refuted_F5. Qed.
-Print Assumptions C14_listing_order_refuted_F5.
+(* os.walk's contract, as the model has it: in the list of files walk yields, nothing that comes later lives in a
+   directory above the directory of an earlier file. *)
+Theorem C14_walk_files_first :
+  forall nd pre, wf_node nd -> StronglySorted Rw (walk pre nd).
+Proof. exact walk_sorted. Qed.
+Print Assumptions C14_walk_files_first.
 
-Theorem C14_paths_eq_refuted_F6 : gapU_F6 U_F6 = true /\ g_paths U_F6 [0] = Some [0] /\ py_paths U_F6 [0] = [0; 1].
+(* The .pth extension of the search paths (_extend_from_pth_files with _handle_pth_file, repaired: F2 sorted order,
+   F7 not transitive, F6 lines relative to the .pth file) IS site.addsitedir's, for every universe and every list of
+   search paths -- provided no .pth line exists relative to the current directory only (what is left of F6: Griffe
+   falls back to the cwd, site does not) and no file is called exactly ".pth" (pathlib gives it no suffix, site of
+   CPython 3.12.1 reads it).  Both hypotheses are decidable and evaluated by the extracted model on every layout. *)
+Theorem C14_search_paths_eq_site :
+  forall U sps, pth_names_okb U = true -> gapU_F6 U = false -> g_paths U sps = py_paths U sps.
+Proof. exact g_paths_eq_site_checked. Qed.
+Print Assumptions C14_search_paths_eq_site.
+
+(* ... and they do not depend on the order in which any directory is listed (sorted() = insertion sort on the names;
+   inserting two different names commutes). *)
+Theorem C14_search_paths_order_invariant :
+  forall U U' sps, perm_universe U U' -> wf_universe U -> g_paths U sps = g_paths U' sps.
+Proof. exact g_paths_order_invariant. Qed.
+Print Assumptions C14_search_paths_order_invariant.
+
+(* Top-level precedence end to end: find_package on the extended search paths answers what PathFinder answers after
+   site.addsitedir has run on every search path. *)
+Theorem C14_find_on_extended_paths_eq_cpython :
+  forall U sps name,
+  pth_names_okb U = true -> gapU_F6 U = false ->
+  forallb (top_ok U name) (g_paths U sps) = true ->
+  find_agree (g_find U name (g_paths U sps) []) (py_find U name (top_dirs (py_paths U sps))).
+Proof. exact find_on_extended_paths_eq_cpython_checked. Qed.
+Print Assumptions C14_find_on_extended_paths_eq_cpython.
+
+Theorem C14_paths_eq_refuted_F6 : gapU_F6 U_F6 = true /\ g_paths U_F6 [0] = [0; 1] /\ py_paths U_F6 [0] = [0].
 Proof. exact paths_eq_refuted_F6. Qed.
 Print Assumptions C14_paths_eq_refuted_F6.
 
-Theorem C14_paths_eq_refuted_F7 : gapU_F7 U_F7 = true /\ g_paths U_F7 [0] = Some [0; 1; 2] /\ py_paths U_F7 [0] = [0; 1].
-Proof. exact paths_eq_refuted_F7. Qed.
-Print Assumptions C14_paths_eq_refuted_F7.
+(* Namespace packages over several portions, the finder stage (iter_submodules on the list of portions, repaired):
+   for every universe and every list of portions, what is yielded never contains two source files of one dotted name
+   and suffix from different portions (the shape of the former finding F8: CPython imports the first portion's) ... *)
+Theorem C14_namespace_first_module_wins : forall U ds, dup_across (iter_portions U ds) = false.
+Proof. exact no_dup_across_portions. Qed.
+Print Assumptions C14_namespace_first_module_wins.
 
-(* "Every loaded module is importable from that file (or stub-only)" is false of namespace packages spread over
-   several portions: one witness per remaining finding, each satisfying exactly its own gap predicate. *)
-Theorem C14_namespace_first_portion_wins_refuted_F3 :
-  exists U sps name, gaps U sps name = ["F3"] /\ loaded_importable U sps name = false.
-Proof. exact namespace_first_portion_wins_refuted_F3. Qed.
-Print Assumptions C14_namespace_first_portion_wins_refuted_F3.
+(* ... and never a file from inside a folder in which a yielded __init__ module (not a stub) of ANOTHER portion lives,
+   be that portion earlier or later, at any depth (the shapes of the former findings F3 and F10: for CPython a
+   regular sub-package is searched in its own directory only). *)
+Theorem C14_namespace_regular_subpackage_shadows : forall U ds, shadow_violation (iter_portions U ds) = false.
+Proof. exact no_shadow_violation. Qed.
+Print Assumptions C14_namespace_regular_subpackage_shadows.
 
-Theorem C14_namespace_first_portion_wins_refuted_F8 :
-  exists U sps name, gaps U sps name = ["F8"] /\ loaded_importable U sps name = false.
-Proof. exact namespace_first_portion_wins_refuted_F8. Qed.
-Print Assumptions C14_namespace_first_portion_wins_refuted_F8.
-
-Theorem C14_namespace_first_portion_wins_refuted_F10 :
-  exists U sps name, gaps U sps name = ["F10"] /\ loaded_importable U sps name = false.
-Proof. exact namespace_first_portion_wins_refuted_F10. Qed.
-Print Assumptions C14_namespace_first_portion_wins_refuted_F10.
-
-(* The .pth loop of _extend_from_pth_files iterates over the list it appends to; the model runs it with explicit
-   fuel.  The fuel g_paths passes always suffices, so the model's OutOfFuel result is never produced, for any layout. *)
-Theorem C14_search_path_extension_fuel_sufficient : forall U sps, g_paths U sps <> None.
-Proof. exact g_paths_fuel_sufficient. Qed.
-Print Assumptions C14_search_path_extension_fuel_sufficient.
-
-Theorem C14_load_never_out_of_fuel : forall insp U sps name, load insp U sps name <> LErr "OutOfFuel".
-Proof. exact load_never_out_of_fuel. Qed.
-Print Assumptions C14_load_never_out_of_fuel.
-
-(* Loaded => importable, regular packages of any depth (the positive half of the property, modulo known findings).
-   D is the package directory, L0 its listing, es the set of entries iter_submodules yields for it, top its
-   __init__ file.  Whatever the static loader puts at a dotted name k below the package is the file CPython's
-   import system resolves k to from the package's __path__ (module file or package __init__), or it is a stub and
-   CPython finds no regular module there -- provided the package tree is in source form (no compiled file names, no
-   pkgutil-style declaration) and no two files claim one module name (no_clash, cf. F5).  The former exclusion of
-   the shape of finding F1 (a module file next to a same-named directory) is gone with the repair of
-   _get_or_create_parent_module: a plain module is no longer accepted as a parent. *)
-Theorem C14_loaded_importable_modulo_known :
-  forall U D L0 es top k f,
+(* Loaded => importable, regular packages of any depth (the positive half of the property).
+   D is the package directory, L0 its listing, top its __init__ file; the entries are the ones iter_submodules yields
+   for it, in its order ([ylist] over [walk]).  Whatever the static loader puts at a dotted name k below the package
+   is the file CPython's import system resolves k to from the package's __path__ (module file or package __init__), or
+   it is a stub and CPython finds no regular module there -- provided the package tree is in source form (no compiled
+   file names, no pkgutil-style declaration).  No hypothesis about files claiming one module name is left: the shape
+   of F1 went with the repair of _get_or_create_parent_module, that of F5 with the repair of iter_submodules, and a
+   module file beside the package of the same name loses against it in Griffe (files first, [C14_walk_files_first])
+   as it does in CPython. *)
+Theorem C14_loaded_importable_regular :
+  forall U D L0 top k f,
   listing_at U D = Some L0 -> deep_nodup L0 ->
   (forall q Lq, get_node L0 q = Some (Dir Lq) ->
      (forall n s, In s compiled_suffixes -> has_file (n ++ s)%string Lq = false) /\
      (forall ns pth, lookup_entry "__init__.py" Lq = Some (File ns pth) -> ns = false)) ->
-  (forall e, In e es <-> exists rel, In rel (walk [] (Dir L0)) /\ yields D rel e) ->
-  no_clash es ->
-  lookup_m k (run top (depth_sort es)) = Some (MFile f) -> k <> [] ->
+  lookup_m k (run top (depth_sort (flat_map (ylist D) (walk [] (Dir L0))))) = Some (MFile f) -> k <> [] ->
   (forall c, In c k -> c <> "" /\ c <> "__init__" /\ c <> "__pycache__") ->
   agrees (MFile f) (py_import U [D] k) = true.
 Proof. exact loaded_importable_regular. Qed.
-Print Assumptions C14_loaded_importable_modulo_known.
+Print Assumptions C14_loaded_importable_regular.
 
 (* The same on the model's own static load of a regular package found at (i, dirc ++ ["__init__.py"]), with the
    hypotheses in decidable form ([in_domain], evaluated by the extracted model on every generated layout at run time). *)
@@ -139,3 +185,22 @@ Print Assumptions C14_loaded_importable_regular_checked.
 Theorem C14_load_total : forall insp U sps name e, load insp U sps name = LErr e -> e = "LoadingError".
 Proof. exact load_total. Qed.
 Print Assumptions C14_load_total.
+
+(* By name or by path.  GriffeLoader.load(Path) computes a module name and a top-level name from the path
+   (finder._module_name_path, finder._top_module_name: both in the model), loads the package of that NAME on the search
+   paths and looks the module name up.  For the path of a top-level directory of any (possibly .pth-added) search
+   directory -- and for the path of its __init__ file -- the result is the result of loading by name, whichever search
+   directory the package is finally found in. *)
+Theorem C14_by_path_eq_by_name :
+  forall U sps i name L,
+  In i (g_paths U sps) -> node_at U (i, [name]) = Some (Dir L) ->
+  load_by_path U sps (i, [name]) = BPLoaded name (load false U sps name).
+Proof. exact by_path_eq_by_name. Qed.
+Print Assumptions C14_by_path_eq_by_name.
+
+Theorem C14_by_init_path_eq_by_name :
+  forall U sps i name fn ns pth,
+  In i (g_paths U sps) -> node_at U (i, [name; fn]) = Some (File ns pth) -> pl_stem fn = "__init__" ->
+  load_by_path U sps (i, [name; fn]) = BPLoaded name (load false U sps name).
+Proof. exact by_init_path_eq_by_name. Qed.
+Print Assumptions C14_by_init_path_eq_by_name.
